@@ -570,7 +570,7 @@ PROPS["C17"] = dict(
         dict(module="MC_NameResolve", cfg="MC_NameResolve_thorough.cfg", tiers=("thorough",), workers=14, timeout=3400, heap="24g"),
     ],
     trace="Trace_C17",
-    drive=dict(quick=dict(n=120, size=3), thorough=dict(n=4000, size=6)),
+    drive=dict(quick=dict(n=400, size=3), thorough=dict(n=4000, size=6)),
     nontrivial=lambda e: len(e["args"]["toks"]) >= 2,
     corrupt=_corrupt_c17,
     corruptible=lambda e: True,
